@@ -1,6 +1,7 @@
 import QrlewModel.Model.Monotone
+import QrlewModel.Model.Filter
 /-
-Arithmetic expression trees over integer columns and the range `Expr::super_image` propagates for them: the type of
+Arithmetic expression trees (`+`, `-`, `*`, `greatest`, `least`) over integer columns and the range `Expr::super_image` propagates for them: the type of
 `f(e₁, e₂)` is the image under `f` (`plusImage` / `minusImage` / `mulImage`, the models of the partitioned-monotonic
 implementations in `data_type/function.rs`) of the types propagated for `e₁` and `e₂`; a literal has the one-point type.
 Compared with the real `Expr::super_image` by the `exprimg` stream; `Props/C06Tree.lean` proves the propagated range sound
@@ -14,6 +15,8 @@ inductive AE where
   | plus (a b : AE)
   | minus (a b : AE)
   | mul (a b : AE)
+  | greatest (a b : AE)
+  | least (a b : AE)
   deriving Repr, Inhabited
 
 /-- value of the expression on a row (saturating i64 arithmetic, as the image computation uses) -/
@@ -23,6 +26,8 @@ def eval (env : Nat → Int) : AE → Int
   | .plus a b => plusI (eval env a) (eval env b)
   | .minus a b => minusI (eval env a) (eval env b)
   | .mul a b => mulI (eval env a) (eval env b)
+  | .greatest a b => max (eval env a) (eval env b)
+  | .least a b => min (eval env a) (eval env b)
 
 /-- the propagated range -/
 def image (cap : Nat) (tys : Nat → Ivs) : AE → Ivs
@@ -31,5 +36,7 @@ def image (cap : Nat) (tys : Nat → Ivs) : AE → Ivs
   | .plus a b => plusImage cap (image cap tys a) (image cap tys b)
   | .minus a b => minusImage cap (image cap tys a) (image cap tys b)
   | .mul a b => mulImage cap (image cap tys a) (image cap tys b)
+  | .greatest a b => greatestImage cap (image cap tys a) (image cap tys b)
+  | .least a b => leastImage cap (image cap tys a) (image cap tys b)
 
 end Qrlew.ExprImg
